@@ -753,6 +753,23 @@ def hb_specific(prog):
         # MarkBasePos does not attach to the non-first glyphs of a multiple substitution
         # unless they are covered (harfbuzz issues 740, 1020, 4124)
         return "multiple substitution before mark-to-base"
+    if "mkmk" in fams:
+        # a ligature formed across skipped marks gives those marks component numbers, and
+        # MarkMarkPos refuses to combine marks of different components of one ligature
+        def skips_marks(l):
+            f = l["flag"]
+            return bool(f.get("im") or f.get("mat") is not None or f.get("mfs") is not None)
+
+        def lig_over_marks(l):
+            for r in l["rules"]:
+                if r[0] == "ligature" and len(r[1]) > 1 and skips_marks(l):
+                    return True
+                if r[0] == "ctx" and any(lig_over_marks(n) for _i, n in r[4]):
+                    return True
+            return False
+
+        if any(lig_over_marks(l) for l in prog["lookups"]):
+            return "ligature over skipped marks before mark-to-mark"
     return None
 
 
@@ -981,10 +998,9 @@ class ShapeUnit(Unit):
             rec.witness("substitution changed a string")
         if changed_pos:
             rec.witness("positioning changed a string")
-        pkey = describe(prog)
-        for k, e in exp.items():
-            if e != ident[k[2]]:
-                rec.state((pkey, k[0], k[1], k[2]))
+        # states: (program, language, alternate index, string) with a result that differs from
+        # the identity; distinct by construction (programs are enumerated without repetition)
+        rec.state_n(sum(1 for k, e in exp.items() if e != ident[k[2]]))
         rec.outcome([fams_key(prog), changed_sub, changed_pos])
         want_ctx = otlref.max_context(prog)
         differential = hb_specific(prog)
